@@ -31,10 +31,13 @@ type gwConfig struct {
 	CacheTTL   string // "" = plain planner, else duration string
 	MaxBatch   int
 	OrderSeach bool
+	// DefaultFactory: the gateway builds its queryers itself (no WithQueryerFactory): its own
+	// factory code runs, sub-requests go through http.DefaultClient
+	DefaultFactory bool
 }
 
 func (c gwConfig) String() string {
-	return fmt.Sprintf("merger=%s parentTypeFn=%d planner=%s maxBatchSize=%d planStepOrderSearch=%v", map[bool]string{false: "Extend", true: "SanitizeNode"}[c.Sanitize], c.ParentFn, map[bool]string{true: "plain", false: "cached(" + c.CacheTTL + ")"}[c.CacheTTL == ""], c.MaxBatch, c.OrderSeach)
+	return fmt.Sprintf("merger=%s parentTypeFn=%d planner=%s maxBatchSize=%d planStepOrderSearch=%v queryerFactory=%s", map[bool]string{false: "Extend", true: "SanitizeNode"}[c.Sanitize], c.ParentFn, map[bool]string{true: "plain", false: "cached(" + c.CacheTTL + ")"}[c.CacheTTL == ""], c.MaxBatch, c.OrderSeach, map[bool]string{false: "harness (per operation)", true: "the gateway's default"}[c.DefaultFactory])
 }
 
 type wireRec struct {
@@ -193,14 +196,22 @@ func (e *fedEnv) boot() (*pebbles.Gateway, error) {
 	cfg := e.cfg
 	opts := []pebbles.GatewayOption{
 		pebbles.WithRemoteSchemaIntrospector(stubIntrospector{e.w}),
-		pebbles.WithQueryerFactory(func(ctx *planner.PlanningContext, url string) queryer.Queryer {
+	}
+	if cfg.DefaultFactory {
+		// the gateway's own factory: queryers over http.DefaultClient, whose transport finds the
+		// simulated network and the tag in the context the sub-requests inherit from the client request
+		http.DefaultClient.Transport = simnet.CtxTransport{}
+	} else {
+		opts = append(opts, pebbles.WithQueryerFactory(func(ctx *planner.PlanningContext, url string) queryer.Queryer {
+			// a queryer factory is user code and may take its time (look a service up, open a pool)
+			e.s.Park("queryer.factory")
 			tag := e.tagOf(ctx)
 			q := queryer.NewMultiOpQueryer(url, cfg.MaxBatch).WithHTTPClient(&http.Client{Transport: &simnet.Transport{Net: e.net, Tag: tag}})
 			if ctx.Request != nil && ctx.Request.Original != nil {
 				q = q.WithContext(ctx.Request.Original.Context())
 			}
 			return &countingQueryer{inner: q, env: e, tag: tag}
-		}),
+		}))
 	}
 	if cfg.Sanitize {
 		var m merger.SanitizeNodeMergerFunc
@@ -420,6 +431,9 @@ func (e *fedEnv) postRaw(client string, body []byte, contentType string) *client
 	// what net/http does: the request context ends when the client goes away
 	ctx, cancel := context.WithCancel(r.Context())
 	defer cancel()
+	if e.cfg.DefaultFactory {
+		ctx = simnet.WithRoute(ctx, &simnet.Route{Net: e.net, Tag: client + "#0"})
+	}
 	e.mu.Lock()
 	if e.cancels == nil {
 		e.cancels = map[string]context.CancelFunc{}
